@@ -53,7 +53,7 @@ pub struct TlsCase {
 pub struct TlsSim;
 
 const HOSTS: [&str; 9] = ["sim.test", "SIM.Test", "a.test", "127.0.0.1", "10.0.0.7", "[::1]", "other.example", "10.0.0.9", "[2001:db8::5]"];
-const SCHEMES: [&str; 5] = ["https", "wss", "http", "ws", "foo"];
+const SCHEMES: [&str; 8] = ["https", "wss", "http", "ws", "foo", "HTTPS", "Wss", "HTTP"];
 
 /// hosts covered by the SANs of the `good` fixture certificate
 fn host_in_good_cert(host: &str) -> bool {
@@ -187,7 +187,7 @@ impl Scenario for TlsSim {
         let rt = simrt::runtime();
         let local = tokio::task::LocalSet::new();
         let uri = uri_of(case);
-        let use_tls = matches!(case.scheme.as_str(), "https" | "wss");
+        let use_tls = matches!(case.scheme.to_ascii_lowercase().as_str(), "https" | "wss");
         let result = std::panic::catch_unwind(std::panic::AssertUnwindSafe(|| {
             local.block_on(&rt, async {
                 crate::net::reset_ops();
